@@ -88,15 +88,19 @@ PLANS['C12'] = Plan(
 )
 
 PLANS['C14'] = Plan(
-    'C14', ['src/alignment/segment_chainer.py::SequentialityScorer.getScore'], 'other',
-    "Proved for all inputs (deductive, nonlinear real arithmetic): SequentialityScorer.getScore returns -inf exactly when the overlap on one map exceeds "
-    "half of the shorter segment (geometric overlap, both strands), is otherwise finite and <= 0 for a non-negative multiplier, and is 0 for a contiguous "
-    "join; no division by zero. BOUNDED, not proved: SegmentChainer.chain (dynamic programme) is compared on the real function with exhaustive "
-    "enumeration of all order-respecting subsets for sets of up to 6 segments, both strands, both variants, three multipliers (subset, order, optimal "
-    "total, never -inf, no over-half overlap between consecutive members, empty segments passed through).",
+    'C14', ['src/alignment/segment_chainer.py::SequentialityScorer.getScore', 'src/alignment/segment_chainer.py::SegmentChainer.chain'], 'proof',
+    "C14 is the conjunction of the postconditions of the two real functions. SequentialityScorer.getScore (nonlinear real arithmetic): -inf exactly when the "
+    "overlap on one map exceeds half of the shorter segment (geometric overlap, both strands), otherwise finite, <= 0 for a non-negative multiplier and 0 for a "
+    "contiguous join; no division by zero. SegmentChainer.chain: Bellman invariants of the dynamic programme on extended reals for the two nested loops, and "
+    "for the back-tracking loop a ghost index list: the result is a strictly increasing selection of the pre-ordered non-empty segments (each at most once, "
+    "diagonal order), consecutive members are never joined by -inf, its total (scores + joins, ghost sum) equals the maximal cumulated score and is finite, the "
+    "empty segments are appended unchanged. Optimality over ALL order-respecting subsets is an induction on the length of the selection whose base, step and "
+    "final obligations are discharged here; the induction schema itself is applied at the meta level (trusted). A bounded comparison with exhaustive subset "
+    "enumeration on the real code supplies replayable inputs and is not counted as proof.",
     bounded=_lazy('bcheck.c14', 'bounded'), replay=_lazy('bcheck.c14', 'replay'),
-    technique='deductive (own VC generator + z3 nonlinear reals) for the join score; bounded comparison with exhaustive subset enumeration for the DP',
-    assumptions=['SegmentChainer.chain: bounded only (<= 6 segments)'],
+    technique='deductive: own VC generator over the real AST + z3 (nonlinear reals, DP invariants, ghost chain index); bounded exhaustive-subset cross-check for replay',
+    assumptions=['meta-level induction schema for chain optimality (base/step/final discharged as obligations)',
+                 'SegmentChainer.chain precondition: every non-empty segment has at least one aligned pair and EmptyAlignmentSegment has no positions (established by the segment factory, C13)'],
 )
 
 NOT_APPLICABLE = {}
